@@ -204,4 +204,169 @@ theorem intCmp_totalCmp : TotalCmp (fun x y : Int => compare x y) := by
 
 theorem bytesCmp_totalCmp : TotalCmp bytesCmp := lexList_totalCmp natCmp_totalCmp
 
+
+/-! ### byte-prefix keys -/
+
+def isBytes (a : List Nat) : Prop := ∀ x ∈ a, x < 256
+
+theorem padBE_lt (n : Nat) (a : List Nat) (ha : isBytes a) : padBE n a < 256 ^ n := by
+  induction n generalizing a with
+  | zero => simp [padBE]
+  | succ n ih =>
+    cases a with
+    | nil => simp only [padBE]; exact Nat.pow_pos (by decide)
+    | cons x xs =>
+      have hx : x < 256 := ha x (by simp)
+      have := ih xs (fun y hy => ha y (by simp [hy]))
+      have h2 : (x + 1) * 256 ^ n ≤ 256 * 256 ^ n := Nat.mul_le_mul_right _ (by omega)
+      rw [Nat.succ_mul] at h2
+      simp only [padBE, Nat.pow_succ]
+      rw [Nat.mul_comm (256 ^ n) 256]
+      omega
+
+theorem bytesCmp_cons (x y : Nat) (xs ys : List Nat) :
+    bytesCmp (x :: xs) (y :: ys) = (match compare x y with | .eq => bytesCmp xs ys | r => r) := rfl
+
+theorem padBE_key (n : Nat) : ∀ a b : List Nat, isBytes a → isBytes b →
+    (padBE n a < padBE n b → bytesCmp a b = .lt) ∧
+    (padBE n a = padBE n b → a.length ≤ n → a.length < b.length → bytesCmp a b = .lt) := by
+  induction n with
+  | zero =>
+    intro a b _ _
+    refine ⟨by simp [padBE], ?_⟩
+    intro _ hl hlt
+    cases a with
+    | nil => cases b with
+      | nil => simp at hlt
+      | cons y ys => rfl
+    | cons x xs => simp at hl
+  | succ n ih =>
+    intro a b ha hb
+    cases a with
+    | nil =>
+      cases b with
+      | nil => simp [padBE]
+      | cons y ys => exact ⟨fun _ => rfl, fun _ _ _ => rfl⟩
+    | cons x xs =>
+      cases b with
+      | nil => simp [padBE]
+      | cons y ys =>
+        have hxs : isBytes xs := fun z hz => ha z (by simp [hz])
+        have hys : isBytes ys := fun z hz => hb z (by simp [hz])
+        have pa := padBE_lt n xs hxs
+        have pb := padBE_lt n ys hys
+        have hlt : y < x → y * 256 ^ n + 256 ^ n ≤ x * 256 ^ n := by
+          intro h
+          have := Nat.mul_le_mul_right (256 ^ n) (show y + 1 ≤ x by omega)
+          rwa [Nat.succ_mul] at this
+        have hgt : x < y → x * 256 ^ n + 256 ^ n ≤ y * 256 ^ n := by
+          intro h
+          have := Nat.mul_le_mul_right (256 ^ n) (show x + 1 ≤ y by omega)
+          rwa [Nat.succ_mul] at this
+        obtain ⟨i1, i2⟩ := ih xs ys hxs hys
+        simp only [padBE, bytesCmp_cons, List.length_cons]
+        refine ⟨?_, ?_⟩
+        · intro h
+          rcases Nat.lt_trichotomy x y with hxy | hxy | hxy
+          · simp [Nat.compare_eq_lt.mpr hxy]
+          · subst hxy; simp; exact i1 (by omega)
+          · have := hlt hxy; omega
+        · intro h hl hll
+          rcases Nat.lt_trichotomy x y with hxy | hxy | hxy
+          · have := hgt hxy; omega
+          · subst hxy; simp; exact i2 (by omega) (by omega) (by omega)
+          · have := hlt hxy; omega
+
+theorem padBE_inj (n : Nat) : ∀ a b : List Nat, isBytes a → isBytes b →
+    padBE n a = padBE n b → a.length = b.length → a.length ≤ n → a = b := by
+  induction n with
+  | zero =>
+    intro a b _ _ _ hl h0
+    cases a with
+    | nil => cases b with
+      | nil => rfl
+      | cons y ys => simp at hl
+    | cons x xs => simp at h0
+  | succ n ih =>
+    intro a b ha hb h hl hn
+    cases a with
+    | nil => cases b with
+      | nil => rfl
+      | cons y ys => simp at hl
+    | cons x xs =>
+      cases b with
+      | nil => simp at hl
+      | cons y ys =>
+        have hxs : isBytes xs := fun z hz => ha z (by simp [hz])
+        have hys : isBytes ys := fun z hz => hb z (by simp [hz])
+        have pa := padBE_lt n xs hxs
+        have pb := padBE_lt n ys hys
+        have hlt : y < x → y * 256 ^ n + 256 ^ n ≤ x * 256 ^ n := by
+          intro h
+          have := Nat.mul_le_mul_right (256 ^ n) (show y + 1 ≤ x by omega)
+          rwa [Nat.succ_mul] at this
+        have hgt : x < y → x * 256 ^ n + 256 ^ n ≤ y * 256 ^ n := by
+          intro h
+          have := Nat.mul_le_mul_right (256 ^ n) (show x + 1 ≤ y by omega)
+          rwa [Nat.succ_mul] at this
+        simp only [padBE, List.length_cons] at h hl hn
+        rcases Nat.lt_trichotomy x y with hxy | hxy | hxy
+        · have := hgt hxy; omega
+        · subst hxy
+          rw [ih xs ys hxs hys (by omega) (by omega) (by omega)]
+        · have := hlt hxy; omega
+
+/-- Theorem 3 (general thresholds) -/
+theorem cmpBytesPrefixG_eq (P S S' : Nat) (hS : S ≤ P + 1) (hS' : S' ≤ P + 1) (a b : List Nat)
+    (ha : isBytes a) (hb : isBytes b) : cmpBytesPrefixG P S S' a b = bytesCmp a b := by
+  have hsw : bytesCmp a b = (bytesCmp b a).swap := bytesCmp_totalCmp.swap b a
+  obtain ⟨k1, k2⟩ := padBE_key P a b ha hb
+  obtain ⟨r1, r2⟩ := padBE_key P b a hb ha
+  unfold cmpBytesPrefixG
+  cases hc : compare (padBE P a) (padBE P b) with
+  | lt => simp only []; exact (k1 (Nat.compare_eq_lt.mp hc)).symm
+  | gt => simp only []; rw [hsw, r1 (Nat.compare_eq_gt.mp hc)]; rfl
+  | eq =>
+    have he := Nat.compare_eq_eq.mp hc
+    simp only []
+    split
+    · rename_i hor
+      cases hl : compare a.length b.length with
+      | eq => rfl
+      | lt =>
+        have := Nat.compare_eq_lt.mp hl
+        simp only []; exact (k2 he (by omega) this).symm
+      | gt =>
+        have := Nat.compare_eq_gt.mp hl
+        simp only []; rw [hsw, r2 he.symm (by omega) this]; rfl
+    · rfl
+
+theorem cmpBytesPrefix_eq (a b : List Nat) (ha : isBytes a) (hb : isBytes b) :
+    cmpBytesPrefix a b = bytesCmp a b :=
+  cmpBytesPrefixG_eq _ _ _ (by decide) (by decide) a b ha hb
+
+/-- inline view key -/
+theorem inlineKey_cmp (a b : List Nat) (ha : isBytes a) (hb : isBytes b)
+    (la : a.length ≤ MAX_INLINE_VIEW_LEN) (lb : b.length ≤ MAX_INLINE_VIEW_LEN) :
+    compare (inlineKey a) (inlineKey b) = bytesCmp a b := by
+  have hsw : bytesCmp a b = (bytesCmp b a).swap := bytesCmp_totalCmp.swap b a
+  obtain ⟨k1, k2⟩ := padBE_key MAX_INLINE_VIEW_LEN a b ha hb
+  obtain ⟨r1, r2⟩ := padBE_key MAX_INLINE_VIEW_LEN b a hb ha
+  have hM : MAX_INLINE_VIEW_LEN = 12 := rfl
+  have hSh : (2:Nat) ^ INLINE_KEY_SHIFT = 4294967296 := by decide
+  unfold inlineKey
+  rw [hSh]
+  rw [hM] at la lb
+  generalize hpa : padBE MAX_INLINE_VIEW_LEN a = pa at *
+  generalize hpb : padBE MAX_INLINE_VIEW_LEN b = pb at *
+  rcases Nat.lt_trichotomy pa pb with h | h | h
+  · rw [k1 h, Nat.compare_eq_lt]; omega
+  · rcases Nat.lt_trichotomy a.length b.length with hl | hl | hl
+    · rw [k2 h (by omega) hl, Nat.compare_eq_lt]; omega
+    · have hab : a = b := padBE_inj _ a b ha hb (by rw [hpa, hpb]; exact h) hl (by rw [hM]; omega)
+      subst hab; subst h
+      rw [bytesCmp_totalCmp.refl]; simp
+    · rw [hsw, r2 h.symm (by omega) hl]; simp [Ordering.swap, Nat.compare_eq_gt]; omega
+  · rw [hsw, r1 h]; simp [Ordering.swap, Nat.compare_eq_gt]; omega
+
 end ArrowModel.C10
